@@ -271,14 +271,16 @@ contracts = {
              "implies(is_NDict(value), is_NDict(result) and " + SAMEPOS.format(r="ndk_of(result)", s="ndk_of(value)") + " and " + SAMEPOS.format(r="ndv_of(result)", s="ndv_of(value)") + ")",
              "implies(is_NData(value), is_NData(result) and ndcls_of(result) == ndcls_of(value) and ndinit_of(result) == ndinit_of(value) and " + SAMEPOS.format(r="ndf_of(result)", s="ndf_of(value)") + ")",
              "implies(is_NLeaf(value), result == fres(func, value))"]),
+ # the leaf iterator yields exactly the leaves: x is yielded iff leafof(value, x), where leafof is defined through the children function
+ # (a flagged child is that leaf; an unflagged child contributes its own leaves): leafof(v, x) <=> cov(children(v), x)
  "iter_nested_value": dict(where=f"{U}:iter_nested_value", params={"value": NV}, yields=Seq(NV), locals={"stack": Seq(PAIR)}, no_raise=True,
-    # whatever is yielded was flagged a leaf by iter_nested_value_children; containers are replaced on the stack by their children
-    loops={0: dict(inv=["forall(j, Int, implies(0 <= j and j < len(stack) and stack[j][0], is_NLeaf(stack[j][1])))",
-                        "forall(j, Int, implies(0 <= j and j < len(yielded), is_NLeaf(yielded[j])))"])},
-    ensures=["forall(j, Int, implies(0 <= j and j < len(yielded), is_NLeaf(yielded[j])))"]),
- "iter_nested_value_children#": dict(where=f"{U}:iter_nested_value_children", params={"value": NV}, returns=Seq(PAIR),
-    ensures=["forall(j, Int, implies(0 <= j and j < len(result), result[j][0] == is_NLeaf(value) and (result[j][0] == is_NLeaf(result[j][1]) or not result[j][0])))",
-             "implies(is_NLeaf(value), len(result) == 1 and result[0] == (True, value))"]),
+    on_yield=lambda e, st, cur, new, v: st.pc.append(f"(forall ((x NV)) (! (= (|in_el| {new.s} x) (or (|in_el| {cur.s} x) (= x {v.s}))) :pattern ((|in_el| {new.s} x))))"),
+    on_pop=lambda e, st, cur, new, last: st.pc.append(f"(forall ((x NV)) (! (= (|cov| {cur.s} x) (or (|cov| {new.s} x) (|cov1| {last.s} x))) :pattern ((|cov| {cur.s} x)) :pattern ((|cov| {new.s} x))))"),
+    on_extend=lambda e, st, cur, new, ext: st.pc.append(f"(forall ((x NV)) (! (= (|cov| {new.s} x) (or (|cov| {cur.s} x) (|cov| {ext.s} x))) :pattern ((|cov| {new.s} x))))"),
+    loops={0: dict(inv=["forall(x, NV, leafof(old(value), x) == (in_el(yielded, x) or cov(stack, x)))"])},
+    ensures=["forall(x, NV, in_el(yielded, x) == leafof(old(value), x))"]),
+ # the children function by name (its content is the contract of iter_nested_value_children verified in the first module)
+ "iter_nested_value_children#": dict(where=f"{U}:iter_nested_value_children", params={"value": NV}, returns=Seq(PAIR), pure="chseq"),
 }
 MODULE = Module(prelude=PRELUDE, defs_text=DEFS, defs={"items_of": ([NV], Seq(NV)), "type_of": ([NV], OBJ)}, axioms=AX, sortnames={"NV": NV},
                 ufuns={"frozen_cls": ([OBJ], BOOL), "named_cls": ([OBJ], BOOL), "data_cls": ([OBJ], BOOL), "leaf_type": ([OBJ], OBJ), "is_dataclass_type": ([OBJ], BOOL), "idseq": ([INT], Seq(INT)), "mapv": ([OBJ, NV], NV), "fres": ([OBJ, NV], NV),
@@ -286,7 +288,22 @@ MODULE = Module(prelude=PRELUDE, defs_text=DEFS, defs={"items_of": ([NV], Seq(NV
                 consts={"list": (OBJ, "|ty_list|"), "tuple": (OBJ, "|ty_tuple|"), "set": (OBJ, "|ty_set|"), "dict": (OBJ, "|ty_dict|")},
                 lib=LIB, hooks={"attr": attr_hook, "iter": iter_hook, "method": method_hook, "isinstance": isinst, "coerce": coerce, "comp": comp_hook, "call": call_hook},
                 contracts={"iter_nested_value_children": contracts["iter_nested_value_children"], "map_nested_value": contracts["map_nested_value"], "map_nested_value[body]": contracts["map_nested_value[body]"]})
-ITER_MODULE = Module(prelude=PRELUDE, defs_text="\n".join(l for l in DEFS.splitlines() if "items_of" in l), defs={"items_of": ([NV], Seq(NV))}, sortnames={"NV": NV}, lib=SPEC_LIB, axioms=AX[:7],
+IAX = [
+ "(forall ((v NV) (x NV)) (! (= (|leafof| v x) (|cov| (|chseq| v) x)) :pattern ((|leafof| v x)) :pattern ((|cov| (|chseq| v) x))))",
+ "(forall ((e %s) (x NV)) (! (= (|cov1| e x) (ite (f0_%s e) (= (f1_%s e) x) (|leafof| (f1_%s e) x))) :pattern ((|cov1| e x))))",
+ "(forall ((e %s) (x NV)) (! (= (|cov| (seq.unit e) x) (|cov1| e x)) :pattern ((|cov| (seq.unit e) x))))",
+ "(forall ((x NV)) (! (not (|cov| (as seq.empty (Seq %s)) x)) :pattern ((|cov| (as seq.empty (Seq %s)) x))))",
+ "(forall ((s (Seq %s)) (x NV)) (! (=> (= (seq.len s) 0) (not (|cov| s x))) :pattern ((|cov| s x))))",
+ "(forall ((x NV)) (! (not (|in_el| (as seq.empty (Seq NV)) x)) :pattern ((|in_el| (as seq.empty (Seq NV)) x))))",
+]
+IAX = [IAX[0],
+       IAX[1] % (sort_smt(PAIR), mangle(PAIR), mangle(PAIR), mangle(PAIR)),
+       IAX[2] % (sort_smt(PAIR),),
+       IAX[3] % (sort_smt(PAIR), sort_smt(PAIR)),
+       IAX[4] % (sort_smt(PAIR),),
+       IAX[5]]
+ITER_MODULE = Module(prelude="(declare-sort NV 0)", sortnames={"NV": NV}, axioms=IAX,
+                     ufuns={"leafof": ([NV, NV], BOOL), "cov": ([Seq(PAIR), NV], BOOL), "cov1": ([PAIR, NV], BOOL), "in_el": ([Seq(NV), NV], BOOL), "chseq": ([NV], Seq(PAIR))},
                      contracts={"iter_nested_value": contracts["iter_nested_value"], "iter_nested_value_children": contracts["iter_nested_value_children#"]})
 MODULES = [(MODULE, ["iter_nested_value_children", "map_nested_value[body]"]), (ITER_MODULE, ["iter_nested_value"])]
 
@@ -303,7 +320,8 @@ EXPECTED_MIN_OBLIGATIONS = 40
 TRUSTED = ["the datatype NV as the image of Python values (type tests as constructor tests; sets / dicts in the object's iteration order; a dataclass as its field values, init flags and class)",
            "dataclasses.fields / getattr / setattr / the class constructor on dataclass instances as field-slot operations", "func as an uninterpreted function of the leaf"]
 ASSUMPTIONS = [
-    "iter_nested_value: proved that only values flagged as leaves are yielded and that containers are expanded through iter_nested_value_children; that EVERY leaf is eventually yielded (a multiset invariant over the stack) is compared with map_nested_value's visits by the bounded check only",
+    "iter_nested_value: proved as a statement about SETS -- x is yielded iff leafof(value, x), where leafof(v, x) <=> some child entry of v covers x (a flagged child is x itself, an unflagged child has x among its leaves); that each leaf OCCURRENCE is yielded exactly once (multiplicities) and that map_nested_value calls func once per occurrence are compared by the bounded check only",
+    "leafof is specified by the fixpoint equation above; the loop invariant proof holds for every predicate satisfying it (for finite values it is unique)",
     "mapping a non-injective function over a set may merge elements: NSet is the sequence of mapped elements before de-duplication",
     "the copy of extra __dict__ entries of a dataclass instance (generic aliases) is outside the datatype",
     "'expressions nested anywhere in such containers are evaluated' (Scheduler.evaluate) is exercised by the bounded check",
